@@ -74,10 +74,33 @@ func runSolver(ctx context.Context, sp solverSpec, file string, timeoutS int) (s
 	return "error", s, dt
 }
 
-// solve races the solvers on one query. want is "unsat" (proof obligations) or "sat" (vacuity guards).
-func solve(query string, dir string, name string, timeoutS int, agree bool) solveResult {
+// solve decides one query. Stage 1 runs the preferred solver alone for a short time (most obligations are
+// decided there, which keeps the CPU cost at one process per obligation); stage 2 races all solvers.
+func solve(query string, dir string, name string, timeoutS int, agree bool, prefer string) solveResult {
 	file := filepath.Join(dir, sanitizeFile(name)+".smt2")
 	os.WriteFile(file, []byte(query), 0o644)
+	res := solveResult{status: "unknown", all: map[string]string{}}
+	finish := func() solveResult {
+		if res.status == "unsat" || res.status == "sat" {
+			if os.Getenv("GOVC_KEEP") == "" {
+				os.Remove(file)
+			}
+		}
+		return res
+	}
+	if !agree {
+		for _, sp := range solvers {
+			if sp.name != prefer {
+				continue
+			}
+			st, out, t := runSolver(context.Background(), sp, file, 2)
+			res.all[sp.name] = st
+			if st == "unsat" || st == "sat" {
+				res.status, res.backend, res.time, res.output = st, sp.name, t, out
+				return finish()
+			}
+		}
+	}
 	ctx, cancel := context.WithCancel(context.Background())
 	defer cancel()
 	type r struct {
@@ -95,7 +118,6 @@ func solve(query string, dir string, name string, timeoutS int, agree bool) solv
 		}(sp)
 	}
 	go func() { wg.Wait(); close(ch) }()
-	res := solveResult{status: "unknown", all: map[string]string{}}
 	var satRes *r
 	for x := range ch {
 		res.all[x.be] = x.st
@@ -127,10 +149,20 @@ func solve(query string, dir string, name string, timeoutS int, agree bool) solv
 	if res.status != "unsat" && satRes != nil {
 		res.status, res.backend, res.time, res.output = "sat", satRes.be, satRes.t, satRes.out
 	}
-	if res.status == "unsat" || res.status == "sat" {
-		if os.Getenv("GOVC_KEEP") == "" {
-			os.Remove(file)
+	return finish()
+}
+
+func solveCover(query, dir, name string) solveResult {
+	file := filepath.Join(dir, sanitizeFile(name)+".smt2")
+	os.WriteFile(file, []byte(query), 0o644)
+	defer os.Remove(file)
+	res := solveResult{status: "unknown", all: map[string]string{}}
+	for _, sp := range solvers {
+		if sp.name != "z3-new" {
+			continue
 		}
+		st, out, t := runSolver(context.Background(), sp, file, 2)
+		res.status, res.backend, res.time, res.output = st, sp.name, t, out
 	}
 	return res
 }
